@@ -751,8 +751,190 @@ impl Check for MergeOrder {
     }
 }
 
+// ---------------------------------------------------------------------------------------------
+// builder_fan_in: several per-kind stream builders fanned into one output per exchange
+// ---------------------------------------------------------------------------------------------
+
+/// One input = the reconnecting stream of one (builder, exchange); what it delivers is written
+/// into the channel `StreamBuilder::subscribe` would have created for that exchange.
+#[derive(Debug, Clone, Serialize, Deserialize)]
+pub struct FanInCase {
+    /// per builder: (kind selector: even = public trades, odd = L1 books; exchange mask over 3 exchanges)
+    pub builders: Vec<(u8, u8)>,
+    /// deliveries in time order: (input selector, reconnect notice instead of an item)
+    pub sends: Vec<(u8, bool)>,
+}
+
+pub struct BuilderFanIn;
+
+const FAN_EXCHANGES: [ExchangeId; 3] = [ExchangeId::BinanceSpot, ExchangeId::Okx, ExchangeId::Kraken];
+
+impl Check for BuilderFanIn {
+    type Case = FanInCase;
+    const NAME: &'static str = "builder_fan_in";
+
+    fn normalise(mut case: FanInCase) -> FanInCase {
+        case.builders.truncate(4);
+        case.sends.truncate(40);
+        if case.builders.is_empty() {
+            case.builders.push((0, 1));
+        }
+        case
+    }
+
+    fn strategy(tier: Tier) -> BoxedStrategy<FanInCase> {
+        let max = if tier == Tier::Quick { 20 } else { 40 };
+        (prop::collection::vec((0u8..2, 1u8..8), 1..=4), prop::collection::vec((any::<u8>(), prop::bool::weighted(0.15)), 0..max))
+            .prop_map(|(builders, sends)| FanInCase { builders, sends })
+            .boxed()
+    }
+
+    fn eval(case: &FanInCase) -> CaseReport {
+        use barter_data::{
+            event::{DataKind, MarketEvent},
+            streams::{Streams, builder::StreamBuilder, consumer::MarketStreamResult},
+            subscription::{
+                book::{OrderBookL1, OrderBooksL1},
+                trade::{PublicTrade, PublicTrades},
+            },
+        };
+        use barter_integration::channel::{Channel, Tx, UnboundedTx};
+        type Out = MarketStreamResult<u32, DataKind>;
+        enum InputTx {
+            Trades(UnboundedTx<MarketStreamResult<u32, PublicTrade>>),
+            L1(UnboundedTx<MarketStreamResult<u32, OrderBookL1>>),
+        }
+        #[derive(Debug, Clone, Copy, PartialEq, Eq)]
+        enum Tok {
+            Item(u32),
+            Notice,
+        }
+        let mut rep = CaseReport::new();
+        macro_rules! bad {
+            ($sig:expr, $($fmt:tt)+) => {{ rep.fail($sig, format!($($fmt)+)); return rep; }};
+        }
+        let t0 = chrono::DateTime::<chrono::Utc>::from_timestamp(1_700_000_000, 0).expect("time");
+        let rt = tokio::runtime::Builder::new_current_thread().enable_time().start_paused(true).build().expect("runtime");
+        // inputs: (builder, exchange)
+        let mut inputs: Vec<(usize, ExchangeId, InputTx)> = Vec::new();
+        let outcome: Result<Vec<(ExchangeId, Vec<Tok>, bool)>, String> = rt.block_on(async {
+            let mut multi = Streams::<Out>::builder_multi();
+            for (b, (kind, mask)) in case.builders.iter().enumerate() {
+                let exchanges: Vec<ExchangeId> = FAN_EXCHANGES.iter().enumerate().filter(|(i, _)| mask & (1 << i) != 0).map(|(_, e)| *e).collect();
+                if kind % 2 == 0 {
+                    let mut builder = StreamBuilder::<u32, PublicTrades>::new();
+                    for e in exchanges {
+                        let channel = Channel::default();
+                        inputs.push((b, e, InputTx::Trades(channel.tx.clone())));
+                        builder.channels.insert(e, channel);
+                    }
+                    multi = multi.add(builder);
+                } else {
+                    let mut builder = StreamBuilder::<u32, OrderBooksL1>::new();
+                    for e in exchanges {
+                        let channel = Channel::default();
+                        inputs.push((b, e, InputTx::L1(channel.tx.clone())));
+                        builder.channels.insert(e, channel);
+                    }
+                    multi = multi.add(builder);
+                }
+            }
+            let mut streams = multi.init().await.map_err(|e| format!("MultiStreamBuilder::init failed: {e}"))?;
+            if inputs.is_empty() {
+                return Ok(vec![]);
+            }
+            // deliveries, one per virtual millisecond
+            for (n, (sel, notice)) in case.sends.iter().enumerate() {
+                let (_, e, tx) = &inputs[(*sel as usize * inputs.len()) >> 8];
+                let n = n as u32;
+                // a closed channel is a symptom, not a harness problem: the oracle reports what is missing
+                match tx {
+                    InputTx::Trades(tx) => {
+                        let _ = tx.send(if *notice { Event::Reconnecting(*e) } else { Event::Item(Ok(MarketEvent { time_exchange: t0, time_received: t0, exchange: *e, instrument: n, kind: PublicTrade { id: n.to_string(), price: 1.0, amount: 1.0, side: barter_instrument::Side::Buy } })) });
+                    }
+                    InputTx::L1(tx) => {
+                        let _ = tx.send(if *notice { Event::Reconnecting(*e) } else { Event::Item(Ok(MarketEvent { time_exchange: t0, time_received: t0, exchange: *e, instrument: n, kind: OrderBookL1 { last_update_time: t0, best_bid: None, best_ask: None } })) });
+                    }
+                }
+                tokio::time::sleep(Duration::from_millis(1)).await;
+            }
+            // all connections close for good: the outputs end once everything has been passed on
+            let keys: Vec<(usize, ExchangeId)> = inputs.iter().map(|(b, e, _)| (*b, *e)).collect();
+            inputs.clear();
+            let mut out = Vec::new();
+            let mut exchanges: Vec<ExchangeId> = keys.iter().map(|(_, e)| *e).collect();
+            exchanges.sort();
+            exchanges.dedup();
+            if streams.streams.len() != exchanges.len() {
+                return Err(format!("{} output streams for the exchanges {exchanges:?}", streams.streams.len()));
+            }
+            for e in exchanges {
+                let Some(mut rx) = streams.streams.remove(&e) else { return Err(format!("no output stream for {e}")) };
+                let mut toks = Vec::new();
+                let mut ended = false;
+                loop {
+                    match tokio::time::timeout(Duration::from_secs(3600), rx.rx.recv()).await {
+                        Err(_) => break,
+                        Ok(None) => {
+                            ended = true;
+                            break;
+                        }
+                        Ok(Some(Event::Reconnecting(x))) if x == e => toks.push(Tok::Notice),
+                        Ok(Some(Event::Item(Ok(ev)))) if ev.exchange == e => toks.push(Tok::Item(ev.instrument)),
+                        Ok(Some(other)) => return Err(format!("output of {e} delivered {other:?}")),
+                    }
+                }
+                out.push((e, toks, ended));
+            }
+            Ok(out)
+        });
+        let out = match outcome {
+            Ok(o) => o,
+            Err(e) => bad!("fan-in:setup", "{e}"),
+        };
+        // expected: per exchange, every input's deliveries, each input's own order kept
+        let mut input_keys: Vec<(usize, ExchangeId)> = Vec::new();
+        for (b, (_, mask)) in case.builders.iter().enumerate() {
+            for (i, e) in FAN_EXCHANGES.iter().enumerate() {
+                if mask & (1 << i) != 0 {
+                    input_keys.push((b, *e));
+                }
+            }
+        }
+        let mut per_input: Vec<Vec<Tok>> = vec![Vec::new(); input_keys.len()];
+        if !input_keys.is_empty() {
+            for (n, (sel, notice)) in case.sends.iter().enumerate() {
+                per_input[(*sel as usize * input_keys.len()) >> 8].push(if *notice { Tok::Notice } else { Tok::Item(n as u32) });
+            }
+        }
+        let mut shared_busy = false;
+        for (e, got, _ended) in &out {
+            let mine: Vec<usize> = (0..input_keys.len()).filter(|i| input_keys[*i].1 == *e).collect();
+            let want_len: usize = mine.iter().map(|i| per_input[*i].len()).sum();
+            for i in &mine {
+                // the input's deliveries appear in the output in the input's order
+                let mut it = got.iter();
+                for tok in &per_input[*i] {
+                    if !it.any(|g| g == tok) {
+                        bad!("fan-in:input-not-delivered-in-order", "output of {e}: input of builder {} delivered {:?}, the output is {got:?} ({} builders cover {e})", input_keys[*i].0, per_input[*i], mine.len());
+                    }
+                }
+            }
+            if got.len() != want_len {
+                bad!("fan-in:multiplicity", "output of {e} delivered {} events {got:?}, its {} inputs delivered {want_len}", got.len(), mine.len());
+            }
+            shared_busy |= mine.iter().filter(|i| !per_input[**i].is_empty()).count() >= 2;
+        }
+        rep.class_if(shared_busy, "two_builders_deliver_for_one_exchange");
+        rep.class_if(case.sends.iter().any(|(_, n)| *n), "reconnect_notice");
+        rep.class_if(out.len() >= 2, "two_or_more_exchanges");
+        rep.nontrivial = shared_busy;
+        rep
+    }
+}
+
 pub fn run(ctx: &mut Ctx) {
-    ctx.rule = "reconnect_script: script vec(outcome,1..12|24), outcome = init failure (after 0..300 ms) | connection (init 0..300 ms, 0..5 items = value / non-terminal error / terminal error, each after 0..500 ms); policy initial 1..5000 ms, multiplier 1..10, max = initial + {0, <20 s, <2000 s}; composition plain / + with_error_handler / + forward_to; paused clock. non-trivial = >= 2 successful connections AND >= 3 consecutive init failures AND the backoff cap reached; distinct by hash of the case. market_stream_entry: the same scripts through init_market_stream(policy, subscriptions) with a scripted in-process venue (delivery, notices and the waits of the policy passed in). merge_order: two inputs defined by a slot sequence (one event per slot instant: left item, right item, left ends, right ends); non-trivial = both inputs contribute >= 2 items before the first end.".into();
+    ctx.rule = "reconnect_script: script vec(outcome,1..12|24), outcome = init failure (after 0..300 ms) | connection (init 0..300 ms, 0..5 items = value / non-terminal error / terminal error, each after 0..500 ms); policy initial 1..5000 ms, multiplier 1..10, max = initial + {0, <20 s, <2000 s}; composition plain / + with_error_handler / + forward_to; paused clock. non-trivial = >= 2 successful connections AND >= 3 consecutive init failures AND the backoff cap reached; distinct by hash of the case. market_stream_entry: the same scripts through init_market_stream(policy, subscriptions) with a scripted in-process venue (delivery, notices and the waits of the policy passed in). builder_fan_in: 1..4 per-kind stream builders (public trades / L1 books), each covering a generated subset of 3 exchanges, added to one MultiStreamBuilder; 0..20|40 deliveries (item or reconnect notice, 15%) written into the builders' per-exchange channels one per virtual ms; every exchange's output must carry each input's deliveries in that input's order and nothing else; non-trivial = two builders deliver for one exchange. merge_order: two inputs defined by a slot sequence (one event per slot instant: left item, right item, left ends, right ends); non-trivial = both inputs contribute >= 2 items before the first end.".into();
     ctx.assumptions = vec![
         "tokio paused clock; instants compared with 1 ms tolerance (timer granularity)".into(),
         "policy has multiplier >= 1 and max >= initial".into(),
@@ -765,8 +947,10 @@ pub fn run(ctx: &mut Ctx) {
     ctx.run::<MarketStreamEntry>(ctx.tier.pick(30_000, 400_000));
     ctx.run::<ReconnectScript>(ctx.tier.pick(60_000, 1_000_000));
     ctx.run::<MergeOrder>(ctx.tier.pick(60_000, 1_000_000));
+    ctx.run_regressions::<BuilderFanIn>();
+    ctx.run::<BuilderFanIn>(ctx.tier.pick(20_000, 300_000));
 }
 
 pub fn replay(ctx: &mut Ctx, doc: &Value) -> bool {
-    ctx.replay::<ReconnectScript>(doc) || ctx.replay::<MarketStreamEntry>(doc) || ctx.replay::<MergeOrder>(doc)
+    ctx.replay::<ReconnectScript>(doc) || ctx.replay::<MarketStreamEntry>(doc) || ctx.replay::<MergeOrder>(doc) || ctx.replay::<BuilderFanIn>(doc)
 }
